@@ -2,5 +2,5 @@
 EXTENDS Names, Json
 \* print the control-plane operations of complete behaviours (the worker's steps are marked "settle")
 Ops == SelectSeq(hist, LAMBDA e : TRUE)
-Emit == (nev = MaxEvents /\ queue = <<>>) => PrintT(<<"HIST", ToJson([i \in DOMAIN hist |-> [k |-> hist[i].k, c |-> hist[i].c, al |-> hist[i].al]])>>)
+Emit == (nev = MaxEvents /\ queue = <<>>) => PrintT(<<"HIST", ToJson([i \in DOMAIN hist |-> [k |-> hist[i].k, c |-> hist[i].c, al |-> hist[i].al, tomb |-> hist[i].tomb]])>>)
 =============================================================================
